@@ -460,6 +460,55 @@ def check_chk(ck, prog):
           "LZMA_CHECK_SIZE_MAX = max(check_sizes) = 64", key="CHK:max")
 
 
+def check_blkopt(ck, prog):
+    """lzma_block (the Block options) is an in/out structure: the Block encoder stores the final Compressed Size and
+    Uncompressed Size back into it.  lzma_block_header_size()/lzma_block_header_encode() store those two members in the
+    Block Header whenever they are not LZMA_VLI_UNKNOWN, so every encoder that starts a Block must (re)initialise both
+    members before it computes the header size -- on every path, in the function that starts the Block."""
+    ck.rule("C02-BLKOPT", "compressed_size/uncompressed_size of the Block options are (re)set on every path to "
+                          "lzma_block_header_size() in the function that starts a Block")
+    n = 0
+    for f in sorted(prog.all_functions("liblzma"), key=lambda f: (f.file, f.line)):
+        if not f.blocks or f.name == "lzma_block_header_size":
+            continue
+        for b, i, e in f.iter_elems():
+            for c in ex.calls(e, into_refs=False):
+                if c.get("fn") != "lzma_block_header_size" or not c["args"]:
+                    continue
+                a = ex.strip(c["args"][0])
+                if a is None or a.get("k") != "un" or a["op"] != "&":
+                    continue                       # a caller-supplied lzma_block (public API wrappers)
+                tgt = ex.strip(a["e"])
+                if tgt is None or tgt.get("k") != "mem":
+                    continue
+                n += 1
+                ck.saw_function(f)
+                for fld in ("compressed_size", "uncompressed_size"):
+                    def via(bb, ii, ee, fld=fld):
+                        if bb.id == b.id and ii >= i:
+                            return False
+                        for (l, r, op, node) in ex.writes(ee):
+                            ls = ex.strip(l)
+                            if ls is None:
+                                continue
+                            if ex.same(ls, tgt):
+                                return True            # whole structure assigned
+                            if ls.get("k") == "mem" and ls["f"] == fld and ex.same(ex.strip(ls["b"]), tgt):
+                                return True
+                        return False
+                    ok = any(via(b, j, b.elems[j]) for j in range(0, i) if b.elems[j] is not None)
+                    if not ok:
+                        ok, path = cfg.must_pass(f, [f.entry], [b.id], via)
+                    ck.ob("C02-BLKOPT", "%s:%s" % (f.name, fld), ok, common.where(f, c),
+                          "%s(): %s.%s is stored on every path before lzma_block_header_size() (line %s)" % (
+                              f.name, ex.show(tgt), fld, ex.line(c)) if ok else
+                          "%s() calls lzma_block_header_size(&%s) at line %s on a path where %s.%s still holds what the "
+                          "previous Block's encoder stored there: the next Block Header would carry the previous Block's "
+                          "size" % (f.name, ex.show(tgt), ex.line(c), ex.show(tgt), fld),
+                          key="BLKOPT:%s:%s" % (f.name, fld))
+    ck.floor("C02-BLKOPT", 4, "obligations")
+
+
 def run(ck):
     ck.explanation = (
         "Layout facts (constant-folded offsets, lengths, CRC ranges, flag bits, field order, byte order) are "
@@ -475,3 +524,4 @@ def run(ck):
     check_lzma2(ck, prog)
     check_meta(ck, prog)
     check_chk(ck, prog)
+    check_blkopt(ck, prog)
